@@ -649,6 +649,60 @@ func c08CheckMulti(c *fw.Ctx, env *t8Env, cs c08Case) {
 	c.Outcome(fmt.Sprintf("multi-in %d rows", len(got.Rows)))
 }
 
+// --- CROSSTAB over FROM (subquery) -------------------------------------------------
+//
+// The group operator keeps every row of a crosstab query until its source is exhausted, so it is the one consumer of a
+// FROM-subquery that holds on to the rows it is handed. Metamorphic oracle: when the inner query only re-aggregates
+// (SUM/COUNT fields, group-by a superset of what the outer query uses, an optional WHERE), the outer query over the
+// subquery equals the same outer query directly over the table (with that WHERE).
+
+type c08Xtab struct {
+	Inner, Where, Outer string
+}
+
+func c08Xtabs() []c08Xtab {
+	var out []c08Xtab
+	inners := []struct{ inner, where string }{
+		{"SELECT a, ca FROM t8 GROUP BY x, y", ""},
+		{"SELECT a, ca FROM t8 GROUP BY x, y, z", ""},
+		{"SELECT a, ca FROM t8 WHERE y = true GROUP BY x, y, z", " WHERE y = true"},
+		{"SELECT a, ca FROM t8 WHERE x > 1 GROUP BY x, y", " WHERE x > 1"},
+	}
+	outers := []string{"SELECT a FROM %s GROUP BY x, CROSSTAB(y)", "SELECT a, ca FROM %s GROUP BY CROSSTAB(y)", "SELECT a FROM %s GROUP BY x, CROSSTABT(y)", "SELECT ca FROM %s GROUP BY y, CROSSTAB(x)", "SELECT a FROM %s GROUP BY CROSSTAB(x, y)"}
+	for _, in := range inners {
+		for _, o := range outers {
+			out = append(out, c08Xtab{in.inner, in.where, o})
+		}
+	}
+	return out
+}
+
+func c08CheckXtab(c *fw.Ctx, env *t8Env, cs c08Case) {
+	x := c08Xtabs()[cs.Index]
+	c.Eval(1)
+	nested := fmt.Sprintf(x.Outer, "("+x.Inner+")")
+	i := strings.Index(x.Outer, "%s")
+	direct := x.Outer[:i] + "t8" + x.Where + x.Outer[i+2:]
+	got, err := env.db.Query(nested, true)
+	if err != nil {
+		c.Violate("C08", "query-error", fmt.Sprintf("%s: %v", nested, err), cs)
+		return
+	}
+	want, err := env.db.Query(direct, true)
+	if err != nil {
+		c.Violate("C08", "query-error", fmt.Sprintf("%s: %v", direct, err), cs)
+		return
+	}
+	if fmt.Sprint(got.Fields, got.Canon()) != fmt.Sprint(want.Fields, want.Canon()) {
+		c.Violate("C08", "crosstab-over-from-subquery-differs", fmt.Sprintf("dataset %d:\n%s\n%v %v\n%s\n%v %v", cs.Dataset, nested, got.Fields, got.Canon(), direct, want.Fields, want.Canon()), cs)
+		return
+	}
+	if len(got.Rows) > 0 {
+		c.Nontrivial(fmt.Sprintf("x|%d|%s", cs.Dataset, nested))
+	}
+	c.Outcome(fmt.Sprintf("xtab %d rows", len(got.Rows)))
+}
+
 // --- FROM (subquery) -------------------------------------------------------
 
 type c08From struct {
@@ -770,6 +824,8 @@ func c08Dispatch(c *fw.Ctx, env *t8Env, cs c08Case) {
 		c08CheckIn(c, env, cs)
 	case "multi":
 		c08CheckMulti(c, env, cs)
+	case "xtab":
+		c08CheckXtab(c, env, cs)
 	case "from":
 		c08CheckFrom(c, env, cs)
 	}
@@ -779,7 +835,7 @@ func init() {
 	fw.Register(&fw.Prop{
 		ID:          "C08",
 		Level:       "exploration",
-		Rule:        "6 datasets (typed dims x int, y bool, z string, each sometimes absent; part flushed) × WHERE: 10 atoms (=, <>, <, >, IN, LIKE, IS NULL, IS NOT NULL, bool =, LEN()=) and their negations as units, every unit and every AND/OR pair of units (820 predicates; quick: every third) × 3 query shapes (native, GROUP BY x, GROUP BY y with period(2s)), judged by a three-valued evaluator written for the harness (comparisons against an absent dim are unknown = unconstrained) through the interval oracle: rows must contain exactly the satisfying points (identified by power-of-two values) and aggregates recomputed from them; HAVING: 20 value predicates (comparisons, + - * /, selected / unselected / sometimes-unset / never-set operands) × 4 select lists × 3 shapes against the HAVING-free query with the operands added, no _having column, same width; IN (SELECT …): 12 sub/outer pairs vs the literal list of distinct values, and several subqueries in one WHERE (every ordered pair of 8 subqueries under AND / OR / AND NOT, every triple under s1 AND (s2 OR s3), every subquery nested in another one's WHERE: 232 combinations) vs the same WHERE over the literal lists; FROM (subquery): 20 outer×inner pairs vs re-aggregation of the materialised inner rows; non-trivial = filter keeps some but not all",
+		Rule:        "6 datasets (typed dims x int, y bool, z string, each sometimes absent; part flushed) × WHERE: 10 atoms (=, <>, <, >, IN, LIKE, IS NULL, IS NOT NULL, bool =, LEN()=) and their negations as units, every unit and every AND/OR pair of units (820 predicates; quick: every third) × 3 query shapes (native, GROUP BY x, GROUP BY y with period(2s)), judged by a three-valued evaluator written for the harness (comparisons against an absent dim are unknown = unconstrained) through the interval oracle: rows must contain exactly the satisfying points (identified by power-of-two values) and aggregates recomputed from them; HAVING: 20 value predicates (comparisons, + - * /, selected / unselected / sometimes-unset / never-set operands) × 4 select lists × 3 shapes against the HAVING-free query with the operands added, no _having column, same width; IN (SELECT …): 12 sub/outer pairs vs the literal list of distinct values, and several subqueries in one WHERE (every ordered pair of 8 subqueries under AND / OR / AND NOT, every triple under s1 AND (s2 OR s3), every subquery nested in another one's WHERE: 232 combinations) vs the same WHERE over the literal lists; FROM (subquery): 20 outer×inner pairs vs re-aggregation of the materialised inner rows, and 20 CROSSTAB / CROSSTABT outer queries over re-aggregating subqueries vs the same outer query directly over the table; non-trivial = filter keeps some but not all",
 		Assumptions: []string{"a comparison against an absent dimension leaves the point unconstrained", "HAVING rows in which an operand is unset are unconstrained"},
 		Shards:      func(tier string) int { return 12 },
 		Budget:      func(tier string) time.Duration { return 30 * time.Minute },
@@ -821,6 +877,9 @@ func init() {
 				}
 				for ii := range c08InQueries {
 					c08CheckIn(c, env, c08Case{Kind: "in", Dataset: ds, Index: ii})
+				}
+				for xi := range c08Xtabs() {
+					c08CheckXtab(c, env, c08Case{Kind: "xtab", Dataset: ds, Index: xi})
 				}
 				for mi := range c08Multis() {
 					c08CheckMulti(c, env, c08Case{Kind: "multi", Dataset: ds, Index: mi})
